@@ -42,6 +42,8 @@ ASSUMPTIONS = [
     "(documented BUG: C-string treatment) and, in variables, without newline (documented BUG: multidimensional character arrays)",
     "CDL round trip (ncmpigen) only for files whose attributes have the six classic types and non-zero length (ncmpidump prints "
     "zero-length attributes as \"\"; ncmpigen man page: CDL has no unsigned / 64-bit constants) and whose 64-bit integer data fit in 2^53",
+    "a floating-point value within machine epsilon of the fill value may be printed as '_' (deliberate in vardata.c, inherited from ncdump); "
+    "the generator produces exact fill values only",
     "a printed decimal is compared after parsing it back to binary32/binary64 (9 / 17 significant digits round-trip exactly)",
     "validator classes asserted are those ncvalidator.c checks or the man page names; the tag of an EMPTY list is documented there as not checked and is not asserted",
     "the serial tools run with RLIMIT_AS = 1 GiB and RLIMIT_CPU = 30 s (count fields of malformed headers are used by ncvalidator as allocation sizes "
@@ -86,6 +88,27 @@ def _dump64(unit, info, fb, what):
     return False
 
 
+def _att_trailing_nl(unit):
+    try:
+        f = C.decode(_target(unit))
+    except C.CDFError:
+        return False
+    return any(a.xtype == C.NC_CHAR and a.values.endswith(b"\n") for _, lst, i in all_atts(f) for a in [lst[i]])
+
+
+def _ext_fill(unit):
+    try:
+        f, data = load(_target(unit))
+    except C.CDFError:
+        return False
+    for v, d in zip(f.vars, data):
+        if v.xtype > 6 and not (f.is_record(v) and not f.numrecs):
+            has, fv = fill_of(f, v)
+            if has and bool((d == fv).any()):
+                return True
+    return False
+
+
 EXCLUSIONS = {
     # F-A ncmpidump.c pr_att(): every numeric attribute is fetched with ncmpi_get_att_double and cast back in pr_att_vals():
     #     NC_INT64 / NC_UINT64 attribute values beyond 2^53 are printed wrong (18446744073709551614 as 0ULL).
@@ -117,6 +140,16 @@ EXCLUSIONS = {
     #     loop runs over the FIRST file's numrecs.  replay: replays/C20/cdfdiff-numrecs-not-compared.json
     "cdfdiff_numrecs_not_compared": {"what": "cdfdiff does not compare the number of records",
                                      "match": lambda u, i, fb: u["tool"] == "cdfdiff" and (u.get("derived") or {}).get("kind") == "a_numrecs"},
+    # F-H getfill.c nc_fill()/nc_putfill(): no case for NC_UBYTE, NC_USHORT, NC_UINT, NC_INT64, NC_UINT64: a '_' in the data of such a
+    #     variable (ncmpidump prints the fill value so) is reported as 'nc_fill: unrecognized type', nothing is stored (0 ends up in
+    #     the file) and the exit status stays 0.  replay: replays/C20/ncmpigen-fill-of-cdf5-types-not-stored.json
+    "ncmpigen_fill_cdf5_types": {"what": "ncmpigen does not store '_' (fill value) for variables of the CDF-5 types",
+                                 "match": lambda u, i, fb: u["tool"] == "ncmpigen" and _ext_fill(u)},
+    # F-I ncmpidump.c pr_att_string(): after every newline it prints `\n",` and opens a new string, also when the newline is the LAST
+    #     character, so the value ends with an empty string ""; ncmpigen turns an empty string constant into one NUL character: a text
+    #     attribute ending in '\n' comes back one character longer.  replay: replays/C20/gen-char-att-trailing-newline.json
+    "gen_char_att_trailing_newline": {"what": "text attribute ending with a newline grows by a NUL in the ncmpidump -> ncmpigen round trip",
+                                      "match": lambda u, i, fb: u["tool"] == "ncmpigen" and _att_trailing_nl(u)},
     # F-G ncoffsets.c hdr_get_NC_{dim,attr,var}array: `if (ndefined == 0) { if (type != NC_UNSPECIFIED) NC_ENOTNC }`: an empty list
     #     written as (tag, 0), which the library, ncvalidator, cdfdiff, ncmpidiff and ncmpidump accept, is refused.
     #     replay: replays/C20/ncoffsets-tag0-empty-list.json
@@ -403,21 +436,22 @@ def layout_strategy(draw, nvars):
     for i in range(nvars):
         if chance(draw, 25):
             lay["gaps"][str(i)] = draw(st.integers(1, 9))
-    for k in ["dims", "gatts", "vars"] + [["vatts", i] for i in range(nvars)]:
-        if chance(draw, 30):
-            lay["tag0"].append(k)
+    if chance(draw, 35):
+        for k in ["dims", "gatts", "vars"] + [["vatts", i] for i in range(nvars)]:
+            if chance(draw, 50):
+                lay["tag0"].append(k)
     if chance(draw, 60):
         lay["fill"] = draw(st.sampled_from(["ff", "be", "a55a", "00ff1234", "43444601"]))
     return lay
 
 
 @st.composite
-def att_strategy(draw, version, style):
-    xt = draw(st.sampled_from(list(C.legal_types(version))))
+def att_strategy(draw, version, style, gensafe=False):
+    xt = draw(st.sampled_from([t for t in C.legal_types(version) if t <= 6 or not gensafe]))
     if xt == C.NC_CHAR:
-        n = draw(st.sampled_from([0, 1, 2, 3, 5, 8, 13]))
+        n = draw(st.sampled_from([0, 1, 2, 3, 5, 8, 13][1 if gensafe else 0:]))
     else:
-        n = draw(st.sampled_from([0, 1, 1, 1, 2, 3, 4]))
+        n = draw(st.sampled_from([0, 1, 1, 1, 2, 3, 4][1 if gensafe else 0:]))
     return {"code": draw(st.integers(0, BIG)), "xt": xt, "n": n, "seed": draw(st.integers(0, 2 ** 31 - 1)),
             "vstyle": "wide" if style == "wide" else draw(st.sampled_from(["cdlnl", "full", "safe53"]))}
 
@@ -442,6 +476,7 @@ def group_strategy(draw, tier="quick", kmax=1):
     style = draw(st.sampled_from(["cdl", "cdl", "cdl", "wide"]))
     origin = draw(st.sampled_from(["enc", "lib"]))
     version = draw(st.sampled_from([1, 2, 5]))
+    gensafe = style == "cdl" and chance(draw, 60)       # attributes inside the documented CDL domain (classic types, length >= 1)
     nfix = draw(st.integers(0, 4))
     dims = [{"code": draw(st.integers(0, BIG)), "len": draw(st.integers(1, 5))} for _ in range(nfix)]
     has_rec = chance(draw, 65)
@@ -461,20 +496,20 @@ def group_strategy(draw, tier="quick", kmax=1):
             vd.pop()
         if isrec:
             vd = [recdim] + vd
-        atts = [draw(att_strategy(version, style)) for _ in range(draw(st.sampled_from([0, 0, 1, 1, 2, 3])))]
+        atts = [draw(att_strategy(version, style, gensafe)) for _ in range(draw(st.sampled_from([0, 0, 1, 1, 2, 3])))]
         v = {"code": draw(st.integers(0, BIG)), "xt": xt, "dims": vd, "atts": atts, "seed": draw(st.integers(0, 2 ** 31 - 1)),
-             "vstyle": "wide" if style == "wide" else draw(st.sampled_from(["full", "safe53", "safe53"])),
+             "vstyle": "wide" if style == "wide" else ("safe53" if gensafe else draw(st.sampled_from(["full", "safe53", "safe53"]))),
              "coord": chance(draw, 10), "fillatt": draw(st.integers(0, BIG)) if chance(draw, 15) else None}
         vars_.append(v)
     anyrec = any(v["dims"] and v["dims"][0] == recdim for v in vars_)
     numrecs = draw(st.sampled_from([0, 1, 2, 2, 3, 3, 4])) if anyrec else 0
-    gatts = [draw(att_strategy(version, style)) for _ in range(draw(st.sampled_from([0, 1, 1, 2, 3])))]
+    gatts = [draw(att_strategy(version, style, gensafe)) for _ in range(draw(st.sampled_from([0, 1, 1, 2, 3])))]
     k = draw(st.integers(1, kmax))
     lib = {"k": k, "enddef": draw(st.sampled_from(["enddef", "_enddef", "_enddef", "hints"])),
            "h_minfree": draw(st.sampled_from([0, 1, 10, 100, 512])), "v_align": draw(st.sampled_from(ALIGNS)),
            "v_minfree": draw(st.sampled_from([0, 4, 40])), "r_align": draw(st.sampled_from(ALIGNS)),
            "h_align": draw(st.sampled_from([4, 8, 64, 512, 1024]))}
-    spec = {"style": style, "origin": origin, "version": version, "numrecs": numrecs, "dims": dims, "gatts": gatts, "vars": vars_,
+    spec = {"style": style, "gensafe": gensafe, "origin": origin, "version": version, "numrecs": numrecs, "dims": dims, "gatts": gatts, "vars": vars_,
             "layout": draw(layout_strategy(nv)), "lib": lib,
             "derived": [draw(derived_strategy(nv)) for _ in range(7)],
             "mpik": [draw(st.sampled_from([1, 1, 1, 1, 1, 1, 2, 2, 3])) for _ in range(6)],
@@ -529,7 +564,12 @@ def spec_model(spec):
                     flat[j] = 0
             arr = flat.reshape(shape)
             data[-1] = arr
-        if v["fillatt"] is not None and b"_FillValue" not in tk:
+        if v["xt"] > 6 and style != "wide" and excl("ncmpigen_fill_cdf5_types") and v["seed"] % 2 and spec.get("gensafe"):
+            flat = arr.reshape(-1)
+            flat[flat == np.array([NC_FILL[v["xt"]]], dtype=flat.dtype)[0]] = 1
+            arr = flat.reshape(shape)
+            data[-1] = arr
+        if v["fillatt"] is not None and b"_FillValue" not in tk and not (v["xt"] > 6 and spec.get("gensafe") and excl("ncmpigen_fill_cdf5_types")):
             code = v["fillatt"]
             if n and code % 3:
                 fv = arr.reshape(-1)[code % n:code % n + 1]
@@ -641,7 +681,7 @@ def new_value(xt, old, code, style):
     o = float(old)
     with np.errstate(all="ignore"):
         cands = [np.array([o * 2 + 1], dtype=dt)[0], np.array([o + 1], dtype=dt)[0], np.array([-o], dtype=dt)[0], gen_values(xt, 1, code % (2 ** 31), "full")[0],
-                 np.nextafter(np.array([o], dtype=dt.newbyteorder("="))[0], np.array([np.inf], dtype=dt.newbyteorder("="))[0])]
+                 np.array([o * 0.5 + 3], dtype=dt)[0]]
     for i in range(len(cands)):
         v = cands[(code + i) % len(cands)]
         if np.isfinite(v) and float(v) != o:
@@ -1119,10 +1159,12 @@ def compare_dump(cd, f, data):
             D.append(("dump_data", "var %r: %d values printed, %d in file" % (v.name, len(toks), flat.size)))
             continue
         has_fill, fv = fill_of(f, v)
+        eps = float(np.finfo(flat.dtype.newbyteorder("=")).eps) if flat.dtype.kind == "f" else 0.0
         for j, (t, x) in enumerate(zip(toks, flat)):
             isfill = bool(has_fill and x == fv)
             if t.kind == "fill":
-                if not isfill:
+                near = bool(has_fill and eps and (float(x) > 0) == (float(fv) > 0) and abs(float(x) - float(fv)) <= abs(eps * float(fv)))
+                if not isfill and not near:
                     D.append(("dump_fill:" + tn, "var %r element %d printed as _ but the value %r is not the fill value %r" % (v.name, j, x, fv)))
                     break
             elif isfill:
